@@ -130,6 +130,9 @@ func GetExtension(msg interface{}, ext interface{}) (interface{}, error) {
 		if !ok {
 			return nil, fmt.Errorf("invalid extension type %T", ext)
 		}
+		if err := checkExtendee(msg.(googlev2.Message), et); err != nil {
+			return nil, err
+		}
 		return googlev2.GetExtension(msg.(googlev2.Message), et), nil
 	case MessageTypeGogo:
 		ed, ok := ext.(*gogo.ExtensionDesc)
@@ -140,6 +143,16 @@ func GetExtension(msg interface{}, ext interface{}) (interface{}, error) {
 	default:
 		return nil, fmt.Errorf("unsupported message type %T", msg)
 	}
+}
+
+// checkExtendee returns an error if et is not an extension of msg's message type.  The Google V2 runtime panics when it is
+// handed such a pair, e.g. the descriptor generated for the same schema under another runtime.
+func checkExtendee(msg googlev2.Message, et protoreflect.ExtensionType) error {
+	want, got := msg.ProtoReflect().Descriptor().FullName(), et.TypeDescriptor().ContainingMessage().FullName()
+	if want != got {
+		return fmt.Errorf("extension %s extends message %s, not %s", et.TypeDescriptor().FullName(), got, want)
+	}
+	return nil
 }
 
 // SetExtension sets a proto2 extension field in msg to the provided value, delegating to the
@@ -156,6 +169,9 @@ func SetExtension(msg interface{}, ext interface{}, val interface{}) error {
 		et, ok := ext.(protoreflect.ExtensionType)
 		if !ok {
 			return fmt.Errorf("invalid extension type %T", ext)
+		}
+		if err := checkExtendee(msg.(googlev2.Message), et); err != nil {
+			return err
 		}
 		googlev2.SetExtension(msg.(googlev2.Message), et, val)
 		return nil
